@@ -307,6 +307,50 @@ Proof.
 Qed.
 Print Assumptions c07_failed_program_only_fee_partial.
 
+(** Repeated SELFDESTRUCT.  In the model StateDB.Suicide zeroes the balance on every call, also for
+    a contract already in the suicide set: *)
+Theorem c07_selfdestruct_zeroes_every_time :
+  forall R (s : state R) self ben,
+    account_empty s self = false -> bal (op_selfdestruct s self ben) self = 0.
+Proof. exact selfdestruct_zeroes_every_time. Qed.
+Print Assumptions c07_selfdestruct_zeroes_every_time.
+
+(** The double-SELFDESTRUCT tree: the sender (1) calls a driver (4) with value 500; the driver CALLs
+    the victim (3, holding 31, code PUSH20 5 SELFDESTRUCT) with value 0 -- it self-destructs to 5 --
+    and CALLs it again with the 500 -- its code still runs within the transaction, it self-destructs
+    again.  No SELFDESTRUCT names its own context, so [c07_all_programs_partial] (conservation) and
+    [c07_programs_never_mint_partial] cover this tree like any other; here is the instance of the
+    underlying induction ([sum_effect]), with the balances: the victim ends with 0 both times, the
+    beneficiary holds 31 + 500.  A StateDB.Suicide that skipped the zeroing for an address already in
+    the suicide set would leave 500 with the victim AND with the beneficiary; the harness records the
+    victim's balance right after every SELFDESTRUCT and compares it with this model (Corr/C07.v,
+    [run_log]). *)
+Definition st_double : state unit :=
+  mkState (fun a => if a =? 1 then 1000000 else if a =? 3 then 31 else 0)
+          (fun a => if a =? 1 then 8 else if (a =? 3) || (a =? 4) then 1 else 0)
+          (fun a => (a =? 3) || (a =? 4)) (fun _ => false) false tt.
+Definition double_sd_tree : effect :=
+  EFrame KCall 4 500 true
+    [EFrame KCall 3 0 true [ESelfDestruct 5]; EFrame KCall 3 500 true [ESelfDestruct 5]].
+Definition U_double : list addr := [1; 2; 3; 4; 5].
+
+Example c07_double_selfdestruct_conserved :
+  let s' := run_effect 100 0 1 st_double double_sd_tree in
+  no_sd_self 1 double_sd_tree = true /\
+  total U_double s' = total U_double st_double /\
+  bal s' 3 = 0 /\ bal s' 5 = 531 /\ bal s' 4 = 0 /\ suicided s' 3 = true.
+Proof.
+  cbv zeta. split; [reflexivity|]. split; [|vm_compute; repeat split].
+  assert (Hnd : NoDup U_double) by (repeat constructor; cbn; intuition discriminate).
+  apply (sum_effect unit 100 U_double Hnd double_sd_tree 0 1 st_double).
+  - cbn; auto.
+  - intros x Hx. vm_compute in Hx. cbn. intuition.
+  - intros a. rewrite U64_val. vm_compute.
+    destruct (a =? 1); [reflexivity|]. destruct ((a =? 3) || (a =? 4))%bool; reflexivity.
+  - discriminate.
+  - reflexivity.
+Qed.
+
 (** * Refutations and sharpness (concrete witnesses; the driver replays each on the implementation) *)
 
 (* accounts: 1 = sender (nonce 7), 2 = fee receiver, 3 = callee *)
